@@ -32,13 +32,89 @@ MIN_COUNTERS = {
     "boundary_checks": {"quick": 20000, "thorough": 300000},
     "public_compared": {"quick": 800, "thorough": 14000},
     "programs_with_break": {"quick": 500, "thorough": 9000},
+    "exhaustive_exit_programs": {"quick": 3000, "thorough": 3000},
 }
 UNIT_TIMEOUT = 150
 
 
+# ---- exhaustive early-exit matrix: every construct x every way of leaving it, nested two deep -------------
+def _constructs():
+    N = lambda k: ["num", k]  # noqa: E731
+    E = lambda k: ["el", k]   # noqa: E731
+    return {
+        "for": lambda H: [N(3), ["for", None, H]],
+        "for-named": lambda H: [N(2), ["for", "a", H]],
+        "while": lambda H: [N(2), ["while", [E(":")], [E("‹")] + H], E("_")],
+        "while-nocond": lambda H: [["while", None, H + [["brk"]]]],
+        "lam0": lambda H: [N(5), ["lam", 0, H], E("†")],
+        "lam1": lambda H: [N(5), ["lam", 1, H], E("†")],
+        "lam2": lambda H: [N(5), N(6), ["lam", 2, H], E("†")],
+        "lam-default": lambda H: [N(5), ["lam", None, H], E("†")],
+        "map": lambda H: [N(3), ["map", H], E(",")],
+        "filter": lambda H: [N(3), ["filter", H], E(",")],
+        "sort": lambda H: [["list", [[N(3)], [N(1)], [N(2)]]], ["sort", H], E(",")],
+        "def0": lambda H: [["def", "f", [], H], ["call", "f"]],
+        "def1": lambda H: [["def", "g", [1], H], N(4), ["call", "g"]],
+        "def-named-param": lambda H: [["def", "f", ["p"], H], N(4), ["call", "f"]],
+        "cond-call": lambda H: [N(1), ["mod", "ß", [["lam", 1, H]]]],
+    }
+
+
+def _exits():
+    N = lambda k: ["num", k]  # noqa: E731
+    E = lambda k: ["el", k]   # noqa: E731
+    return {
+        "normal": [N(7)],
+        "X-first": [["brk"], N(7)],
+        "X-middle": [N(7), ["brk"], N(8)],
+        "X-last": [N(7), ["brk"]],
+        "X-in-if-taken": [N(1), ["if", [[["brk"]]]], N(8)],
+        "X-in-if-not-taken": [N(0), ["if", [[["brk"]]]], N(8)],
+        "X-in-else": [N(0), ["if", [[N(2)], [["brk"]]]], N(8)],
+        "X-after-n": [E("n"), ["brk"]],
+        "x": [["rec"], N(7)],
+        "x-in-if": [E("n"), ["if", [[["rec"]]]], N(8)],
+    }
+
+
+LOOPS = ("for", "for-named", "while", "while-nocond")
+
+
+def _legal(cname, ename):
+    if ename.startswith("x"):
+        return cname in ("for", "for-named")      # x in while / lambda: not determined by the documents
+    return True
+
+
+def exh_programs(outer):
+    C, X = _constructs(), _exits()
+    probe = [["el", "n"], ["el", ","]]
+    tail = [["probe_exec"], ["el", "n"], ["el", ","]]
+    out = []
+    for en, eb in X.items():
+        if _legal(outer, en):
+            out.append((f"{outer}/{en}", C[outer](eb) + probe + tail))
+    for inner in C:
+        if inner in ("for-named", "def0", "def1", "def-named-param") and outer not in ():
+            # named loop variables and definitions are only determined at top level
+            continue
+        for en, eb in X.items():
+            if not _legal(inner, en):
+                continue
+            for on, ob in (("normal", []), ("then-X", [["brk"]]), ("then-X-in-if", [["num", 1], ["if", [[["brk"]]]]])):
+                if on != "normal" and outer in ("for-named",) and False:
+                    continue
+                body = C[inner](eb) + ob
+                out.append((f"{outer}>{inner}/{en}/{on}", C[outer](body) + probe + tail))
+    return out
+
+
 def units(tier, seed):
     n_units = 120 if tier == "quick" else 1600
-    return [{"kind": "random", "seed": seed, "idx": i, "n": 60 if tier == "quick" else 100} for i in range(n_units)]
+    u = [{"kind": "random", "seed": seed, "idx": i, "n": 60 if tier == "quick" else 100} for i in range(n_units)]
+    for outer in _constructs():
+        u.append({"kind": "exh", "outer": outer})
+    return u
 
 
 def setup_worker():
@@ -187,6 +263,13 @@ def run_unit(unit):
     res = {"evals": 0, "keys": [], "violations": [], "inconclusive": [], "skips": {}, "counters": {}, "samples": []}
     if unit["kind"] == "one":
         check_case(unit["prog"], unit["inputs"], res)
+        return res
+    if unit["kind"] == "exh":
+        progs = exh_programs(unit["outer"])
+        for _name, prog in progs:
+            for inputs in ([], [6, [1, 2]]):
+                check_case(prog, inputs, res)
+        res["counters"]["exhaustive_exit_programs"] = len(progs) * 2
         return res
     rnd = random.Random(f"C12/{unit['seed']}/{unit['idx']}")
     for j in range(unit["n"]):
